@@ -1,2 +1,3 @@
 pub mod c04;
+pub mod c05;
 pub mod libprops;
